@@ -26,7 +26,7 @@ var e1Owners = map[string][]string{
 	"C11": {"metadata", "metadata-wire"},
 	"C12": {"close-hang", "close-count", "close-leak", "close-later-op", "close-ctx", "serve-order", "panic"},
 	"C13": {"panic", "byz-memory", "byz-hang"},
-	"C18": {"oldreader", "control-ignored"},
+	"C18": {"oldreader", "delivery", "completeness", "crosstalk", "probe", "handler-error", "spurious-error"},
 }
 
 // delivery-class oracles are shared: C02 owns crosstalk, C01 owns the rest, C05
@@ -575,6 +575,8 @@ func (x *e1) checkEnd(connAlive bool, faultFree bool) {
 		x.viol("concurrent-io", "two Transport.Read calls in flight at once", "")
 	}
 
+	x.checkMetaWire()
+
 	for _, r := range x.recs {
 		spec := r.Spec
 		k := spec.Idx
@@ -747,4 +749,81 @@ func (x *e1) cancelSettled(r *rpcRec, step int) bool {
 		}
 	}
 	return false
+}
+
+// checkMetaWire (C11 b): every invoke-metadata packet the client put on the wire
+// is the canonical protobuf encoding of the map of one of the program's calls.
+func (x *e1) checkMetaWire() {
+	invoked := map[uint64]bool{}
+	for _, p := range x.monC.Packets {
+		if p.Kind == kInvoke {
+			invoked[p.Stream] = true
+		}
+	}
+	for _, p := range x.monC.Packets {
+		if p.Kind != kInvokeMD {
+			continue
+		}
+		if !invoked[p.Stream] {
+			x.res.probe("metadata_sent_without_invoke")
+		}
+		pairs, err := refDecodeMeta(p.Data)
+		if err != nil {
+			x.viol("metadata-wire", "invoke-metadata payload is not the protobuf encoding of map<string,string> field 1", fmt.Sprintf("s%d %x", p.Stream, p.Data[:min(len(p.Data), 40)]))
+			continue
+		}
+		if !bytes.Equal(refEncodeMeta(pairs), p.Data) {
+			x.viol("metadata-wire", "invoke-metadata payload is not canonically encoded", fmt.Sprintf("s%d", p.Stream))
+		}
+		got := map[string]string{}
+		for _, kv := range pairs {
+			got[kv.K] = kv.V
+		}
+		found := false
+		for _, r := range x.recs {
+			if r.Spec.HasMeta && len(r.Spec.Meta) == len(got) && len(pairs) == len(got) {
+				same := true
+				for k, v := range r.Spec.Meta {
+					if gv, ok := got[k]; !ok || gv != v {
+						same = false
+					}
+				}
+				if same {
+					found = true
+				}
+			}
+		}
+		if !found {
+			x.viol("metadata-wire", "invoke-metadata payload decodes to a map no call attached", fmt.Sprintf("s%d %s", p.Stream, fmtMap(got)))
+		}
+	}
+}
+
+// checkByz (C13): a hostile peer may end the connection, it must not make the
+// library allocate beyond the reader's bound. (Panics are checked in every phase;
+// hangs are judged by the probe: either the connection is closed or it still works,
+// unless the hostile bytes legitimately make the reader wait for more data.)
+func (x *e1) checkByz() {
+	max := x.prog.Cfg.ReaderMax
+	if max == 0 {
+		max = 4 << 20
+	}
+	bound := 4*max + 64<<10
+	for _, e := range []*Endpoint{x.cep, x.sep} {
+		if e.MaxReadBuf > bound {
+			x.viol("byz-memory", fmt.Sprintf("reader offered a %s buffer to the transport with maximum %d", sizeClass(e.MaxReadBuf), max), fmt.Sprintf("%d > %d", e.MaxReadBuf, bound))
+		}
+	}
+}
+
+func sizeClass(n int) string {
+	switch {
+	case n > 64<<20:
+		return ">64MiB"
+	case n > 16<<20:
+		return ">16MiB"
+	case n > 1<<20:
+		return ">1MiB"
+	}
+	return ">256KiB"
 }
